@@ -32,7 +32,7 @@ func substrate(c *Ctx, which string) []*RuleResult {
 	switch which {
 	case "rbt":
 		return []*RuleResult{
-			prefixFilter(c.rule("R11", ruleR11), "R11", "substrate red-black tree: parent links mirror child links", 10, "R11:trees/redblacktree"),
+			prefixFilter(c.rule("R11", ruleR11), "R11", "substrate red-black tree: parent links mirror child links", 8, "R11:trees/redblacktree"),
 			prefixFilter(c.rule("R10", ruleR10), "R10", "substrate red-black tree: rotations, fix-up arms, Put/lookup arms are mirror images", 8, "R10:trees/redblacktree.Tree.rotate", "R10:trees/redblacktree.Tree.insertCase", "R10:trees/redblacktree.Tree.deleteCase", "R10:trees/redblacktree.Tree.replaceNode", "R10:trees/redblacktree.Node.sibling", "R10:trees/redblacktree.Tree.Put", "R10:trees/redblacktree.Tree.lookup"),
 			prefixFilter(c.rule("R34", ruleR34), "R34", "substrate red-black tree: rotations preserve the in-order sequence", 2, "R34:trees/redblacktree"),
 			prefixFilter(c.rule("R12", ruleR12), "R12", "substrate red-black tree: the size counter moves only with the structure", 4, "R12b:trees/redblacktree", "R12c:trees/redblacktree", "R12d:trees/redblacktree", "R12e:trees/redblacktree"),
@@ -148,11 +148,14 @@ func init() {
 			prefixFilter(c.rule("R21b", ruleR21b), "R21b", "B-tree: rebalance is keyed by the node's own key", 1, "R21b:btree.rebalance-key"))
 	}}
 	properties["C03"] = propDef{run: func(c *Ctx) *PropertyRun {
-		return pr("other", "Decided: (R5a) every use of an index parameter of Get/Remove/Insert/Set/Swap on the three lists is dominated by withinRange(index)==true; (R5b) with an out-of-range index nothing is written except the documented append (a call to Add guarded by index == size); (R23w) withinRange ≡ 0 <= i < Size() on all three; (R7) an empty variadic list leaves no nil pointer to dereference; (R12b,c,e) the linked lists' size counters move only with allocate-and-link / guarded unlink; (R23s) Sort = SortFunc(Values(), comparator) then Clear; Add; (R23c) Contains(xs...) exactness; (R20) Append ≡ Add; (R30) the array list's length — its Size() — is replayed symbolically through every method: Add/Insert grow it by exactly len(values), Remove shrinks it by one, growBy(n) by n, resize(l, c) sets l, shrink/Sort/Swap/Set keep it, Clear zeroes it (reallocation thresholds cannot pad or truncate the sequence); (R33) every index-driven pointer walk of the linked lists keeps pos(pointer) = counter + d as a loop invariant (first ↦ 0, last ↦ size-1, next/prev ↦ ±1), walks from the head and from the tail land on the same positions relative to the index, and one pointer lands exactly on it; (R38) Swap exchanges the two requested positions crosswise with both values read first, Prepend's head insertion runs over the values from the last to the first, the array list's Insert splices (old contents, index, values), IndexOf reports the position it matched; (R39) a path that unlinks one element either moves first/last or knows by comparison that the removed element is not that end; (R40) the array list's contents are replayed as a symbolic sequence through every exported method, helpers expanded in place: Add leaves old ++ values, Insert old[:i] ++ values ++ old[i:], Remove old[:i] ++ old[i+1:], Set replaces slot i (or appends at i == len), Clear leaves nothing and every other method leaves the sequence alone — positions compared by linear arithmetic over the path's range checks; (R2b) no list retains a slice its caller handed in (Add/Insert/New copy the values: the element at an index changes only through the list). Not decided: that pointer surgery in the linked Insert/Remove yields the spliced sequence; traversal-direction arithmetic; array-list grow/shrink thresholds; IndexOf results."+notBehaviour,
+		return pr("other", "Decided: (R5a) every use of an index parameter of Get/Remove/Insert/Set/Swap on the three lists is dominated by withinRange(index)==true; (R5b) with an out-of-range index nothing is written except the documented append (a call to Add guarded by index == size); (R23w) withinRange ≡ 0 <= i < Size() on all three; (R7) an empty variadic list leaves no nil pointer to dereference; (R12b,c,e) the linked lists' size counters move only with allocate-and-link / guarded unlink; (R23s) Sort = SortFunc(Values(), comparator) then Clear; Add; (R23c) Contains(xs...) exactness; (R20) Append ≡ Add; (R30) the array list's length — its Size() — is replayed symbolically through every method: Add/Insert grow it by exactly len(values), Remove shrinks it by one, growBy(n) by n, resize(l, c) sets l, shrink/Sort/Swap/Set keep it, Clear zeroes it (reallocation thresholds cannot pad or truncate the sequence); (R33) every index-driven pointer walk of the linked lists keeps pos(pointer) = counter + d as a loop invariant (first ↦ 0, last ↦ size-1, next/prev ↦ ±1), walks from the head and from the tail land on the same positions relative to the index, and one pointer lands exactly on it; (R38) Swap exchanges the two requested positions crosswise with both values read first, Prepend's head insertion runs over the values from the last to the first, the array list's Insert splices (old contents, index, values), IndexOf reports the position it matched; (R39) a path that unlinks one element either moves first/last or knows by comparison that the removed element is not that end; (R40) the array list's contents are replayed as a symbolic sequence through every exported method, helpers expanded in place: Add leaves old ++ values, Insert old[:i] ++ values ++ old[i:], Remove old[:i] ++ old[i+1:], Set replaces slot i (or appends at i == len), Clear leaves nothing and every other method leaves the sequence alone — positions compared by linear arithmetic over the path's range checks; (R2b) no list retains a slice its caller handed in (Add/Insert/New copy the values: the element at an index changes only through the list); (R1) the reading operations write nothing (a Get that answers from a cursor remembered by an earlier Get is not the sequence the mutators left). Not decided: that pointer surgery in the linked Insert/Remove yields the spliced sequence; traversal-direction arithmetic; array-list grow/shrink thresholds; IndexOf results."+notBehaviour,
 			c.rule("R5", ruleR5), c.rule("R7", ruleR7), c.rule("R25", ruleR25), c.rule("R27", ruleR27), c.rule("R30", ruleR30), c.rule("R40", ruleR40), c.rule("R33", ruleR33), c.rule("R39", ruleR39), prefixFilter(c.rule("R38", ruleR38), "R38", "LISTOPS: Swap exchanges crosswise, Prepend keeps the passed order, Insert splices at the index, IndexOf reports where it found the value", 8, "R38:swap:", "R38:prepend:", "R38:indexof:", "R38:insert:"),
 			prefixFilter(c.rule("R12", ruleR12), "R12", "SIZE: linked-list counters", 6, "R12b:lists/", "R12c:lists/", "R12e:lists/"),
 			prefixFilter(c.rule("R23", ruleR23), "R23", "LISTS: Contains, Sort, withinRange of the three lists", 9, "R23c:lists/", "R23s:lists/", "R23w:lists/"),
 			prefixFilter(c.rule("R2b", ruleR2b), "R2b", "OWNED: a list keeps no slice a caller handed in (an element at index i changes only through the list)", 12, "R2b:lists/"),
+			filter(c.rule("R1", ruleR1), "R1", "PURE: the reading operations of the three lists (Get, IndexOf, Contains, Values, Size, …) write nothing — what Get(i) reports is position i of the sequence as the mutators left it, not a memo of an earlier read", 40, func(o Obligation) bool {
+				return strings.HasPrefix(o.Key, "R1:lists/") && strings.Contains(o.Key, ".(*List).")
+			}),
 			rolesFor(c, "C03"))
 	}}
 	properties["C04"] = propDef{run: func(c *Ctx) *PropertyRun {
@@ -211,7 +214,7 @@ func init() {
 		return pr("other", "Decided: (R16) for both BidiMaps, on every path of Put the pair held by the key is evicted from the inverse map by the looked-up value and the pair holding the value is evicted from the forward map by the looked-up key, exactly when the respective lookup found something, and both evictions precede both insertions (key→value forward, value→key inverse); Remove deletes both directions in one found-guarded region, the inverse one keyed by the looked-up value, and does nothing for an absent key; Clear clears both; Get/Size/Keys read the forward map, GetKey/Values the inverse map; (R8) their loaders insert through Put; of the red-black tree that carries both directions of TreeBidiMap: (R11) every child-link store has its parent-link twin and (R10) the rotations are mirror images (a stale Parent makes Remove and enumeration disagree with Get/GetKey). Not decided: the rest of the underlying map/tree correctness (C01's remainder). Inherited (substrate): the red-black tree that carries both directions of TreeBidiMap — parent links, mirror arms, rotations' in-order preservation, fix-up wiring, size counter, comparator discipline."+notBehaviour,
 			withSubstrates(c, []*RuleResult{
 				c.rule("R16", ruleR16),
-				prefixFilter(c.rule("R11", ruleR11), "R11", "PARENTLINK: the red-black tree under both directions of TreeBidiMap", 10, "R11:trees/redblacktree"),
+				prefixFilter(c.rule("R11", ruleR11), "R11", "PARENTLINK: the red-black tree under both directions of TreeBidiMap", 8, "R11:trees/redblacktree"),
 				prefixFilter(c.rule("R10", ruleR10), "R10", "MIRROR: red-black rotations under TreeBidiMap", 1, "R10:trees/redblacktree.Tree.rotate"),
 				prefixFilter(c.rule("R8", ruleR8), "R8", "LOADER: BidiMap FromJSON inserts through Put", 10, "R8:maps/hashbidimap", "R8a:maps/hashbidimap", "R8b:maps/hashbidimap", "R8c:maps/hashbidimap", "R8d:maps/hashbidimap", "R8:maps/treebidimap", "R8a:maps/treebidimap", "R8b:maps/treebidimap", "R8c:maps/treebidimap", "R8d:maps/treebidimap"),
 			}, "rbt")...)
